@@ -238,3 +238,13 @@ def _vec_push_sibling(body, ev_op, entry_op):
   if len(pa) != 1 or len(pb) != 1:
     return False
   return always_with(body, pa[0].bb, pb[0].bb, escape_at=[pa[0].bb]) and (always_with(body, pb[0].bb, pa[0].bb, escape_at=[pb[0].bb]) or body.dominates(pa[0].bb, pb[0].bb))
+
+
+# sensitivity pack (thorough tier)
+MUTANTS = [{'name': 'burn event dropped', 'file': 'src/index/updater/rune_updater.rs', 'old': '      if let Some(sender) = self.event_sender {\n        sender.blocking_send(Event::RuneBurned {\n          block_height: self.height,\n          txid,\n          rune_id: id,\n          amount: amount.n(),\n        })?;\n      }\n', 'new': '', 'expect': ('R37.1', '', 'RuneBurned')},
+           {'name': 'mint event send failure ignored', 'file': 'src/index/updater/rune_updater.rs', 'old': '            amount: amount.n(),\n          })?;\n        }\n      }\n', 'new': '            amount: amount.n(),\n          }).ok();\n        }\n      }\n', 'expect': ('R37.2', '', 'RuneMinted')},
+           {'name': 'etched event before the entry is stored and only for non-reserved', 'file': 'src/index/updater/rune_updater.rs', 'old': '    if let Some(sender) = self.event_sender {\n      sender.blocking_send(Event::RuneEtched {', 'new': '    if let Some(sender) = self.event_sender.filter(|_| id.block % 2 == 0) {\n      sender.blocking_send(Event::RuneEtched {', 'expect': ('R37.1', '', 'RuneEtched')}]
+
+
+# behaviour-preserving pack (thorough tier)
+NEUTRAL = [{'name': 'event fields reordered', 'file': 'src/index/updater/rune_updater.rs', 'old': '        sender.blocking_send(Event::RuneBurned {\n          block_height: self.height,\n          txid,\n', 'new': '        sender.blocking_send(Event::RuneBurned {\n          txid,\n          block_height: self.height,\n'}]
